@@ -14,7 +14,7 @@ RULE = ("(a) Histories: a Hypothesis RuleBasedStateMachine per run picks storage
         "(extremes 0.0 and 1-2^-53 included). After EVERY update: stored serials pairwise distinct and a subset of arrivals, "
         "len == min(n, capacity) (Batch: n), targets aligned with instances or absent, Batch == stream, Interval == last size, "
         "Sequence == last one. (b) Exhaustive: every outcome of the draws (choice-point enumeration; uniforms on a 3-cell grid) for "
-        "every reservoir class, k<=3, n<=k+2..3, both store_targets values. Non-trivial: n > capacity, store_targets=True and, for "
+        "every reservoir class, k<=3, n<=k+2..3, both store_targets values; plus capacities 257 and 300 (beyond CPython's small-integer cache) and NumPy-integer capacities. Non-trivial: n > capacity, store_targets=True and, for "
         "reservoirs, at least one replacement happened; distinct by digest of (config, draws).")
 ASSUMPTIONS = ["the invariants are checked on get_data()/len() only (public observations)",
                "for UniformReservoirStorage the enumeration walks a 3-cell grid of the continuous uniforms: exhaustive over slot "
@@ -27,6 +27,9 @@ def make(cfg):
     from ixai.storage import (BatchStorage, IntervalStorage, SequenceStorage, UniformReservoirStorage,
                               GeometricReservoirStorage)
     c, k, stt = cfg['cls'], cfg['k'], cfg['st']
+    if cfg.get('np_capacity'):
+        import numpy as np
+        k = np.int64(k)        # a capacity that is an integer, but not a Python int
     if c == 'batch':
         return BatchStorage(store_targets=stt)
     if c == 'interval':
@@ -246,7 +249,18 @@ def run(ctx):
                             spaces.append(f"{c}/k={k}/st={stt}/p={p}/n={k + extra}: {res.detail['leaves']} leaves")
         ctx.extra['enumerated_leaves'] = total_leaves
         ctx.extra['exhaustive_subspaces'] = spaces[:60]
-    # (a) histories with scripted draws
+    # (a0) capacities beyond CPython's small-integer cache and NumPy-integer capacities (deterministic, one scripted run each)
+    if ctx.shard == 0:
+        for c in ('interval', 'uniform', 'geometric'):
+            for k, npcap in ((257, False), (300, False), (4, True), (1, True)):
+                cfg = {'cls': c, 'k': k, 'st': True, 'np_capacity': npcap}
+                if c == 'geometric':
+                    cfg['p'] = 1
+                case = {'cfg': cfg, 'script': [3, 2 ** 52, 7, 11, 2 ** 53 - 1, 0, 5], 'n': k + 5}
+                res = run_scripted(case)
+                ctx.record('scripted', case, res)
+                if not res.ok and ctx.violation('scripted', res.key, res.detail, case):
+                    return
     if not ctx.machine_search('machine', StorageMachine, ctx.n(400, 40000), 40):
         return
     s = st.fixed_dictionaries({'cfg': configs(), 'script': gen.script, 'n': st.integers(0, 60 if ctx.thorough() else 30)})
